@@ -152,6 +152,7 @@ def contracts(repo):
             out.append(_read(cb))
         elif cb == 14 or os.environ.get("VERIF_TIER_EFFECTIVE", "quick") == "thorough":
             out.append(_count_contiguous_ext(cb))  # about 40 s of VC generation per geometry: one geometry in the quick tier, all 8 in the thorough tier
+    out.append(_compression(repo))
     for i in range(32):
         out += _ext_bits(i)
     if os.environ.get("VERIF_TIER_EFFECTIVE", "quick") == "thorough" or os.environ.get("VERIF_EXPERIMENT"):
@@ -312,6 +313,7 @@ def _yield_runs(cb):
                                                                               "l2_table", "l2_entry", "l2_bitmap", "host_cluster_offset", "nb_clusters", "sc_count")})},
                    case=_case_name(cb, False), note="generator: per-yield obligations relative to the ghost position; L1/L2 contents arbitrary 64-bit values, image size unbounded")
     c.select_terms = True
+    c.cost = 20
     return c
 
 
@@ -395,6 +397,7 @@ def _read(cb, ext=False):
                    requires=requires, post=post, loops={("For", 0): LoopSpec(inv, shapes={"unalloc_zeroed": "local", "data": "local"})}, shifts=r"^(run_size|plen0|run_roff)!", case=_case_name(cb, ext),
                    note="consumer of the run sequence of _yield_runs (per-run contract proved on the generator); backing file = stream of the backing image's guest bytes; inflate assumed (A3); host clusters inside the data file (A6)")
     c.select_terms = True
+    c.cost = 30 if ext else 4
     return c
 
 
@@ -442,7 +445,7 @@ def _bitcount(which):
                       loops={("For", 0): LoopSpec(inv=lambda eng, st: z3.BoolVal(True), unroll=32)}, note="size is the constant 32 used by every caller; value any 64-bit integer")
 
 
-def _geometry(repo, cb, ext):
+def _geometry(repo, cb, ext, free=()):
     """QCow2.__init__ with the header pinned to one geometry: the derived attributes the read path relies on have their specified values"""
     from .gates import GateModel
 
@@ -455,7 +458,8 @@ def _geometry(repo, cb, ext):
             if T_.__name__ == "QCowHeader":
                 pins = {"version": 3, "cluster_bits": cb, "incompatible_features": 16 if ext else 0, "crypt_method": 0, "backing_file_offset": 0, "header_length": 112, "compression_type": 0}
                 for k, v in pins.items():
-                    m.fields[f"{obj.path}.{k}"] = IntV(z3.IntVal(v))
+                    if k not in free:
+                        m.fields[f"{obj.path}.{k}"] = IntV(z3.IntVal(v))
             return obj
 
         m.parse = parse
@@ -500,6 +504,27 @@ def _geometry(repo, cb, ext):
     return FnContract(FILE, "QCow2.__init__", ["C01"], model, params=lambda m: {"self": ObjV("self"), "fh": FileV("fh"), "data_file": OpaqueV("data_file"), "backing_file": NoneV()},
                       requires=lambda m: m.hyps, post=post, allow_any_exception=True, mode="geometry", case=_case_name(cb, ext),
                       note="gate mode with cluster_bits / extended-L2 flag pinned to the case: the class invariant the read-path contracts assume (RunModel / ReadModel fields)")
+
+
+def _compression(repo):
+    """QCow2.__init__, compression type: qcow2.txt -- the compression_type field (byte 104) exists only in version-3 headers longer than 104
+    bytes; otherwise the image uses zlib (0).  Version, header_length and the field are arbitrary; the geometry is pinned to one legal case."""
+    from .gates import GateModel, fld, parsed
+
+    def model():
+        # the geometry of case cb=16 is pinned; version, header_length and compression_type range over their machine types
+        return _geometry(repo, 16, False, free=("version", "header_length", "compression_type")).model()
+
+    def post(eng, st, rv):
+        h = parsed(st, "QCowHeader")
+        g = lambda n: eng.as_int(fld(eng, st, h, n), st, None)  # noqa: E731
+        a = st.attrs.get("self.compression_type")
+        want = z3.If(z3.And(g("version") == 3, g("header_length") > 104), g("compression_type"), 0)
+        return [("compression_type_is_the_header_field_iff_the_v3_header_is_longer_than_104_bytes_else_zlib", eng.as_int(a, st, None) == want if isinstance(a, (IntV, BoolV)) else z3.BoolVal(False))]
+
+    return FnContract(FILE, "QCow2.__init__", ["C01", "C14"], model, params=lambda m: {"self": ObjV("self"), "fh": FileV("fh"), "data_file": OpaqueV("data_file"), "backing_file": NoneV()},
+                      requires=lambda m: m.hyps, post=post, allow_any_exception=True, mode="geometry", case="compression_type",
+                      note="gate mode; version, header_length and compression_type symbolic")
 
 
 def FuncRef_(name):
@@ -570,7 +595,7 @@ def _ext_bits(i):
             del m.global_calls["get_subcluster_type"]
             return m
 
-        return FnContract(FILE, "get_subcluster_type", ["C01"], model, params=lambda m: params(m, "sc_index"), requires=req,
+        return FnContract(FILE, "get_subcluster_type", ["C01", "C07", "C11"], model, params=lambda m: params(m, "sc_index"), requires=req,
                           post=lambda eng, st, rv: [("subcluster_type_per_qcow2_txt", eng.as_int(rv, st, None) == eng.model.spec_sc_type(e0, i))], case=f"extl2,sc={i}",
                           note="extended L2 entry: first word any 64-bit value, bitmap = 64 independent bits; independent of the cluster size")
 
@@ -588,7 +613,7 @@ def _ext_bits(i):
     def model_range():
         return ExtBitsModel()
 
-    c_range = FnContract(FILE, "get_subcluster_range_type", ["C01", "C11"], model_range, params=lambda m: params(m, "sc_from"), requires=req, post=post_range,
+    c_range = FnContract(FILE, "get_subcluster_range_type", ["C01", "C07", "C11"], model_range, params=lambda m: params(m, "sc_from"), requires=req, post=post_range,
                          raises={"Error": lambda eng, st: eng.model.spec_sc_type(e0, i) == eng.model.SCT["QCOW2_SUBCLUSTER_INVALID"]}, case=f"extl2,sc={i}",
                          note="raises exactly for entries whose bitmap is invalid (a sub-cluster both allocated and zero, or allocation bits on an unallocated cluster)")
     return [mk_type(), c_range]
@@ -708,13 +733,14 @@ def _count_contiguous_ext(cb):
                 ("the_partly_covered_last_cluster_too", z3.Implies(z3.And(f, rest > 0), z3.And(*[z3.Implies(z3.And(z3.Or(full > 0, k >= s0), k < rest), m.T_at(i0 + full, k) == t0) for k in range(32)],
                                                                                             z3.Implies(chk(m, t0), m.offs(m.E(i0 + full)) == m.offs(m.E(i0)) + full * m.cs))))]
 
-    c = FnContract(FILE, "count_contiguous_subclusters", ["C01", "C11"], lambda: ExtCountModel(cb),
+    c = FnContract(FILE, "count_contiguous_subclusters", ["C01", "C07", "C11"], lambda: ExtCountModel(cb),
                    params=lambda m: {"qcow2": ObjV("qcow2"), "nb_clusters": IntV(nb0), "sc_index": IntV(s0), "l2_table": ObjV("l2_table"), "l2_index": IntV(i0)},
                    requires=lambda m: [nb0 >= 1, i0 >= 0, i0 + nb0 <= (1 << m.l2_bits), s0 >= 0, s0 <= 31] + m.table_axioms(), post=post, raises={"Error": None},
                    loops={("For", 0): LoopSpec(inv=loop_inv, shapes={"expected_type": "optint", "expected_offset": "optint", "check_offset": "bool", "count": "int", "first_sc": "local", "l2_entry": "local", "l2_bitmap": "local",
                                                                      "sc_type": "local", "sc_count": "local"})},
                    case=_case_name(cb, True), note="extended L2: entries and 64-bit bitmaps arbitrary; positions counted in sub-clusters")
     c.select_terms = False
+    c.cost = 100
     return c
 
 
@@ -893,6 +919,7 @@ def _yield_runs_ext(cb):
                                                                               "l2_table", "l2_entry", "l2_bitmap", "host_cluster_offset", "nb_clusters", "sc_count")})},
                    case=_case_name(cb, True), note="extended L2: generator contract at sub-cluster granularity; entries and bitmaps arbitrary; an invalid bitmap raises Error")
     c.select_terms = True
+    c.cost = 200
     return c
 
 
